@@ -187,12 +187,13 @@ impl AcquisitionLedger {
         }
     }
 
-    /// Total adjusted cost across all lots with remaining shares.
+    /// Total adjusted cost of the shares still held: for a partly sold lot only the held
+    /// portion of its cost counts (the sold portion has already been used as allowable cost).
     pub fn total_adjusted_cost(&self) -> Decimal {
         self.lots
             .iter()
             .filter(|lot| lot.held_for_adjustment() > Decimal::ZERO)
-            .map(|lot| lot.adjusted_cost())
+            .map(|lot| lot.adjusted_unit_cost() * lot.held_for_adjustment())
             .sum()
     }
 
